@@ -130,6 +130,68 @@ let model_nodiff (m : model) : model =
 let eng_s = function 0 -> "classic" | 1 -> "weighted" | 2 -> "pipeline" | _ -> "?"
 let be_s = function 0 -> "memory" | 1 -> "sqlite" | _ -> "?"
 
+(* Cross-check of extraction: with ORACLE_DUMP=<file> the values the EXTRACTED model computes for a
+   case are appended to that file as one line `<case id> <numbers>`, before any comparison with the
+   implementation; bin/coqreplay_c05.py recomputes the same numbers inside Coq with vm_compute.
+   Per request: stratified, converged, |universe|, |permitted|, sum of permitted ids, outcome-set
+   mask and trigger bits of Check/V1.v for the first universe object; then per recorded candidate
+   stream that ended without error: |candidates|, nofurther_sound, complete, nodupb, and
+   (length, order-sensitive checksum) of evaluate (limit 0 and 2, arrival i mod 3), of execute
+   (limit 0, error after 1 send; 999 = Failed) and of pipeline_recv (limit 0 and 2) on it. *)
+let dump_chan = match Sys.getenv_opt "ORACLE_DUMP" with
+  | Some p when p <> "" -> Some (open_out_gen [Open_append; Open_creat] 0o644 p)
+  | _ -> None
+let aout_bit = function AT -> 1 | AFn -> 2 | AFc -> 4 | AEc -> 8 | AEd -> 16 | AEo -> 32 | AFuel -> 64
+let bint b = if b then 1 else 0
+let len_cksum (l : nat list) =
+  let ids = List.map int_of_nat l in
+  [List.length ids; snd (List.fold_left (fun (i, acc) x -> (i + 1, acc + i * x)) (1, 0) ids)]
+
+let dump_case id m cs store ats md fuel requests =
+  match dump_chan with
+  | None -> ()
+  | Some ch ->
+    let out = ref [] in
+    let push l = out := List.rev_append l !out in
+    let strat = stratified m in
+    List.iter (fun rv ->
+      match as_list rv with
+      | [s; px; otv; relv; _runs; streams] ->
+        let subj = dec_subject s in
+        let pathx = List.map dec_pair (as_list px) in
+        let ot = n_of_int (as_int otv) in
+        let rel = n_of_int (as_int relv) in
+        let (v, conv) = lfp m cs store subj ats in
+        let univ = uniq (List.map (fun (o : obj) -> int_of_n o.oid) (List.filter (fun (o : obj) -> o.otype = ot) (List.map fst ats))) in
+        let objof i = { otype = ot; oid = n_of_int i } in
+        let permitted = List.filter (fun i -> atomval subj v (objof i) rel = T) univ in
+        push [bint strat; bint conv; List.length univ; List.length permitted; List.fold_left (+) 0 permitted];
+        (match univ with
+         | i :: _ ->
+           let (oset, tr) = check_top m cs store subj pathx md fuel (objof i) rel in
+           push [List.fold_left (fun a x -> a lor aout_bit x) 0 oset; bint tr.tr_excl_sub_cycle + 2 * bint tr.tr_swallow]
+         | [] -> push [0; 0]);
+        let chk n = List.mem (int_of_nat n) permitted in
+        List.iter (fun sv ->
+          match as_list sv with
+          | [_; _; ecv; cvs] when as_int ecv = 0 ->
+            let cands = List.map (fun c -> match as_list c with
+              | [i; st] -> (nat_of_int (as_int i), (if as_int st = 1 then NoFurtherEval else RequiresFurtherEval))
+              | _ -> failwith "candidate") (as_list cvs) in
+            let arrival = List.mapi (fun i _ -> nat_of_int (i mod 3)) cands in
+            let values = List.map fst cands in
+            push [List.length cands; bint (nofurther_sound_nat chk cands); bint (complete_nat chk (nat_list univ) cands);
+                  bint (nodupb_nat values)];
+            push (len_cksum (evaluate_nat cands chk O arrival));
+            push (len_cksum (evaluate_nat cands chk (nat_of_int 2) arrival));
+            push (match execute_nat cands chk O arrival (Some (nat_of_int 1)) with Objects l -> len_cksum l | Failed -> [999; 0]);
+            push (len_cksum (pipeline_recv_nat (values @ values) O));
+            push (len_cksum (pipeline_recv_nat (values @ values) (nat_of_int 2)))
+          | _ -> ()) (as_list streams)
+      | _ -> failwith "request") (as_list requests);
+    output_string ch (id ^ " " ^ String.concat " " (List.rev_map string_of_int !out) ^ "\n");
+    flush ch
+
 let f _id vs =
   match vs with
   | [I "1"; model; conds; tuples; atoms; maxdepth; requests] ->
@@ -141,6 +203,7 @@ let f _id vs =
     let fuel = nat_of_int (List.length ats + 3) in
     let strat = stratified m in
     let has_e = List.exists (fun t -> t.t_ceval = E && valid_for_read m cs t) store in
+    dump_case _id m cs store ats md fuel requests;
     let props = ref [] and diffs = ref [] and knowns = ref [] in
     List.iter (fun rv ->
       match as_list rv with
